@@ -8,7 +8,7 @@ The saved file is also decoded by the generated Lean reader (well-formed, consis
 manager model is compared where available.
 """
 import os, random, shutil, tempfile, json
-from harness import common, codec_common as cc, bases, vworker, histories
+from harness import common, codec_common as cc, bases, vworker, histories, mgrtrace
 
 RULE = ("per version: seeded random histories over all public manager operations (in-domain arguments) with 2-3 saves each; at every "
         "save dump(managers) == dump(reload(saved file)); non-trivial = a save preceded by at least 3 recorded operations; "
@@ -29,7 +29,7 @@ def worker(version, args):
             small = os.path.join(tmp, "small.aoe2scenario")
             s0.write_to_file(small)
             del s0
-        cmds, expect = [f"table {version}"], []
+        cmds, expect, m4 = [f"table {version}"], [], []
         for h in range(args["nhist"]):
             hseed = f"C03:{args['seed']}:{version}:{h}"
             rng = random.Random(hseed)
@@ -44,7 +44,8 @@ def worker(version, args):
                 fn = os.path.join(tmp, f"h{h}_{sidx}.aoe2scenario")
                 with cc.quiet():
                     d1 = histories.dump_managers(scn)
-                    st, e = common.outcome(scn.write_to_file, fn)
+                    st, e = common.outcome(mgrtrace.save_traced, scn, fn)
+                traced = e if st == "ok" else None
                 replay = {"version": version, "history_seed": hseed, "save_index": sidx, "nops": len(H.ops), "ops": H.ops[-40:]}
                 key = f"{h}:{sidx}"
                 if st != "ok":
@@ -52,7 +53,8 @@ def worker(version, args):
                     continue                                   # C04 reports saves that raise
                 with cc.quiet():
                     d_after = histories.dump_managers(scn)     # saving must not change the managers either
-                    st2, scn2 = common.outcome(AoE2DEScenario.from_file, fn)
+                    st2, lt = common.outcome(mgrtrace.load_traced, fn)
+                scn2, pulled = (lt if st2 == "ok" else (lt, None))
                 if st2 != "ok":
                     R.case(key=key, nontrivial=True, tags=("reload:raises",))
                     R.violation({"kind": "reload-raises", "error": scn2}, f"the saved file cannot be loaded again ({scn2}): nothing of what was set comes back", replay)
@@ -80,8 +82,16 @@ def worker(version, args):
                     o = drv.batch([f"table {version}", "hdr " + cc.hexd(raw)])
                     if o[1].startswith("ok"):
                         n = int(o[1].split("consumed=")[1])
-                        cmds += ["hdr " + cc.hexd(raw), "body " + cc.hexd(cc.inflate(raw[n:]))]
+                        body = cc.inflate(raw[n:])
+                        # M4: commit engine must predict the file; construct engine must predict the constructors' inputs
+                        if traced and traced[0] is not None:
+                            cmds += ["settree " + traced[0], "commit " + traced[1], "ser"]
+                            m4.append(("commit", len(cmds) - 1, (raw[:n], body), replay))
+                        cmds += ["hdr " + cc.hexd(raw), "body " + cc.hexd(body)]
                         expect.append((len(cmds) - 1, replay))
+                        if pulled is not None:
+                            cmds += ["construct"]
+                            m4.append(("construct", len(cmds) - 1, pulled, replay))
             for k, v in H.counts.items():
                 R.dist["op:" + k] += v
             del scn
@@ -92,6 +102,20 @@ def worker(version, args):
                     R.mismatch("saved file is not well-formed for the Lean reader (see C04)", replay, model=out[idx][:80])
                 else:
                     R.traces += 1
+            for kind, idx, want, replay in m4:
+                R.dist["m4:" + kind] += 1
+                if kind == "commit":
+                    o = out[idx]
+                    ok_ = o.startswith("ok") and tuple(cc.unhexd(x.split("=", 1)[1]) for x in o.split()[1:]) == want
+                    if not ok_:
+                        R.mismatch("Lean commit engine predicts a different file than the library wrote (" + out[idx - 1][:40] + ")", replay)
+                    else:
+                        R.traces += 1
+                else:
+                    if out[idx] != want:
+                        R.mismatch("Lean construct engine hands the managers different values than the library pulled", {**replay, "diff": cc.first_diff(want, out[idx])})
+                    else:
+                        R.traces += 1
     finally:
         shutil.rmtree(tmp, ignore_errors=True)
     return R.to_json()
